@@ -327,6 +327,26 @@ func TestC10Paths(t *testing.T) {
 	})
 }
 
+// TestC10LateWrite: a probe write that blocks and then fails, while the destination's answer to the previous
+// probe is handled by the receiver (which tells the sender to stop): the failure must still be reported.
+func TestC10LateWrite(t *testing.T) {
+	rec := NewRecorder("C10", "C10LateWrite", "enumeration: parallel-capable variants x the k-th probe write (k = 2..4) blocking for 6 ms and then failing, with the destination one hop before that probe and answering after 10 ms (its answer is handled while the failing write is in progress); oracle as for every fatal fault: no result, an error wrapping the injected cause, handles closed once, nothing left behind; non-trivial always; exhaustive over that product")
+	rec.Exhaustive = true
+	RunCases(t, rec, func(yield func(*c10Case) bool) {
+		for _, v := range AllVariants {
+			for k := 2; k <= 4; k++ {
+				sc := c10Base(v, 1, 5)
+				sc.Script = FlowScript{DestDist: k - 1, Default: HopSpec{DelayUs: 10000}}
+				sc.WriteLagUs = 6000
+				sc.Faults = []Fault{{Kind: "sink", Handle: 0, Op: "WriteTo", K: k, Class: "fatal", Late: true}}
+				if !yield(&c10Case{Sc: sc}) {
+					return
+				}
+			}
+		}
+	}, checkC10)
+}
+
 // TestC10Request: the same atomicity through the library entry point (RunTraceroute with one run), which adds
 // its own layer between the caller and the protocol packages.
 func TestC10Request(t *testing.T) {
